@@ -178,7 +178,21 @@ impl<SystemType : System> SysCache<SystemType>
             {
                 match system.rename(&cache_path, &target_path)
                 {
-                    Err(error) => RestoreResult::SystemError(error),
+                    Err(error) =>
+                    {
+                        /*  Another rule's thread can take the same cache file between the
+                            check above and the rename (two targets with identical content
+                            share one cache entry).  That is the same as the file not being
+                            in the cache: the caller falls back to rebuilding. */
+                        if system.is_file(&cache_path)
+                        {
+                            RestoreResult::SystemError(error)
+                        }
+                        else
+                        {
+                            RestoreResult::NotThere
+                        }
+                    },
                     Ok(()) => RestoreResult::Done
                 }
             }
